@@ -2,6 +2,7 @@ package actionlint
 
 import (
 	"fmt"
+	"sort"
 	"strings"
 )
 
@@ -88,8 +89,14 @@ func (rule *RuleWorkflowCall) checkWorkflowCallUsesLocal(call *WorkflowCall) {
 		return
 	}
 
-	// Validate inputs
-	for n, i := range m.Inputs {
+	// Validate inputs. Errors for missing inputs are reported at the same position so visit them in fixed order
+	ins := make([]string, 0, len(m.Inputs))
+	for n := range m.Inputs {
+		ins = append(ins, n)
+	}
+	sort.Strings(ins)
+	for _, n := range ins {
+		i := m.Inputs[n]
 		if i != nil && i.Required {
 			if _, ok := call.Inputs[n]; !ok {
 				rule.Errorf(u.Pos, "input %q is required by %q reusable workflow", i.Name, u.Value)
@@ -116,7 +123,13 @@ func (rule *RuleWorkflowCall) checkWorkflowCallUsesLocal(call *WorkflowCall) {
 
 	// Validate secrets
 	if !call.InheritSecrets {
-		for n, s := range m.Secrets {
+		ses := make([]string, 0, len(m.Secrets))
+		for n := range m.Secrets {
+			ses = append(ses, n)
+		}
+		sort.Strings(ses)
+		for _, n := range ses {
+			s := m.Secrets[n]
 			if s.Required {
 				if _, ok := call.Secrets[n]; !ok {
 					rule.Errorf(u.Pos, "secret %q is required by %q reusable workflow", s.Name, u.Value)
